@@ -6,9 +6,14 @@ package sst
 
 import (
 	"bytes"
+	"io"
 
 	"reduction.dev/reduction/dkv/kv"
+	"reduction.dev/reduction/dkv/storage"
 )
+
+var _ io.Reader
+var _ storage.File
 
 func forall(lo, hi int, f func(int) bool) bool {
 	for i := lo; i < hi; i++ {
@@ -113,12 +118,71 @@ func ghostLevelSorted(ll *LevelList, i int) bool {
 //@     invariant forall(0, len(out_), func(p int) bool { return forall(0, p, func(q int) bool {
 //@           return indexof(ll.levels[0].tables.l, out_[q]) < 0 ==> indexof(ll.levels[0].tables.l, out_[p]) < 0 }) })
 
-//@ func Table.Get
-//@   property C07
+// ---- record level of a table file (C17). The entries region of a file is a sequence of records
+//   <key: 4-byte LE length, bytes> <seq: 8 bytes LE> <tombstone: 1 byte> [<value: 4-byte LE length, bytes>]
+// (the value is absent for tombstones). ghostRecEnd is the offset just behind the record that
+// starts at o. ghostRecStart(d, o): o is the start of a record of d (uninterpreted: which offsets
+// are record starts is decided by the writer); a well-formed file is closed under "next record"
+// and its records do not overlap (recsWF), and the sparse index points at record starts (idxWF).
+func ghostLE32(d []byte, o int) int {
+	return int(d[o]) + int(d[o+1])*256 + int(d[o+2])*65536 + int(d[o+3])*16777216
+}
+func ghostRecTomb(d []byte, o int) bool { return d[o+4+ghostLE32(d, o)+8] == 1 }
+func ghostRecValAt(d []byte, o int) int { return o + 4 + ghostLE32(d, o) + 9 }
+
+var ghostRecStart func(d []byte, o int) bool
+var ghostRecNext func(d []byte, o int) int
+
+// recsWF: offset 0 starts a record; behind every record that starts inside the file a further
+// record starts (ghostRecNext names that offset so that the solver unfolds one step at a time),
+// and every record lies inside the file. idxWF: the sparse index points at record starts, ascending.
+//@ define recLE64(d, o) := uint64(d[o]) + uint64(d[o+1])*256 + uint64(d[o+2])*65536 + uint64(d[o+3])*16777216 + uint64(d[o+4])*4294967296 + uint64(d[o+5])*1099511627776 + uint64(d[o+6])*281474976710656 + uint64(d[o+7])*72057594037927936
+//@ define recEnd(d, o) := ite(ghostRecTomb(d, o), ghostRecValAt(d, o), ghostRecValAt(d, o) + 4 + ghostLE32(d, ghostRecValAt(d, o)))
+//@ define recKeyIs(d, o, k) := ghostLE32(d, o) == len(k) && forall(0, len(k), func(ii_ int) bool { return d[o+4+ii_] == k[ii_] })
+//@ define recsWF(d) := ghostRecStart(d, 0) &&
+//@        forall(func(oo_ int) bool { return trig(ghostRecNext(d, oo_)) && (ghostRecStart(d, oo_) && 0 <= oo_ && oo_ < len(d) ==>
+//@               ghostRecNext(d, oo_) == recEnd(d, oo_) && ghostRecNext(d, oo_) <= len(d) && ghostRecStart(d, ghostRecNext(d, oo_))) })
+//@ define idxWF(t, d) := t.searchIndex != nil && forall(0, len(t.searchIndex.offsets), func(jj_ int) bool { return ghostRecStart(d, int(t.searchIndex.offsets[jj_])) && int(t.searchIndex.offsets[jj_]) <= len(d) }) &&
+//@        forall(0, len(t.searchIndex.offsets), func(ii_ int) bool { return forall(0, ii_, func(jj_ int) bool { return t.searchIndex.offsets[jj_] < t.searchIndex.offsets[ii_] }) })
+//@ define tblData(t) := storage.ghostCursorData(t.file, uint64(t.entriesSize))
+//@ define tblWF(t) := recsWF(tblData(t)) && idxWF(t, tblData(t))
+
+// The footer (bloom filter, sparse index) is loaded once; the entries region is not touched.
+//@ func Table.ensureMetadataLoaded
+//@   property C17
+//@   trusted
+//@   modifies t.metadataLoaded, t.filter, t.searchIndex
+
+//@ func ext:bloom.Filter.MightHave
 //@   trusted
 //@   modifies nothing
-//@   ensures result1 == nil ==> ghostTableHas(t, key) && result0 != nil && result0 == ghostTableEntry(t, key)
-//@   ensures result1 == kv.ErrNotFound ==> !ghostTableHas(t, key)
+
+// Table.Get. For C07 a table is a function of its key (assumed clauses, as before). Record level,
+// proved: on a well-formed file the scan visits records only (the cursor is at a record start
+// before every record it reads - a reader that skips value bytes of a tombstone, or forgets
+// them for a live entry, leaves the record grid); an entry it returns is the decoded record
+// at a record start whose key equals the target; and it gives up only after every record of
+// the index interval [start, end) was compared.
+//@ func Table.Get
+//@   property C17
+//@   nosafety
+//@   requires{C17} t.entriesSize >= 0
+//@   modifies t.metadataLoaded, t.filter, t.searchIndex, io.Reader.pos
+//@   assumes result1 == nil ==> ghostTableHas(t, key) && result0 != nil && result0 == ghostTableEntry(t, key)
+//@   assumes result1 == kv.ErrNotFound ==> !ghostTableHas(t, key)
+//@   ensures tblWF(t) && result1 == nil ==> result0 != nil
+//@   ensures tblWF(t) && result1 == nil ==> bytes.Equal(result0.(*Entry).key, key)
+//@   ensures tblWF(t) && result1 == nil ==> exists(func(o int) bool { return ghostRecStart(tblData(t), o) && 0 <= o && o < len(tblData(t)) &&
+//@           len(result0.(*Entry).key) == ghostLE32(tblData(t), o) && forall(0, len(result0.(*Entry).key), func(i int) bool { return result0.(*Entry).key[i] == tblData(t)[o+4+i] }) &&
+//@           result0.(*Entry).seqNum == recLE64(tblData(t), o+4+ghostLE32(tblData(t), o)) && result0.(*Entry).isDelete == ghostRecTomb(tblData(t), o) })
+//@   ensures tblWF(t) && result1 == nil && !result0.(*Entry).isDelete ==> exists(func(o int) bool { return ghostRecStart(tblData(t), o) && 0 <= o && o < len(tblData(t)) &&
+//@           len(result0.(*Entry).key) == ghostLE32(tblData(t), o) && forall(0, len(result0.(*Entry).key), func(i int) bool { return result0.(*Entry).key[i] == tblData(t)[o+4+i] }) &&
+//@           !ghostRecTomb(tblData(t), o) && len(result0.(*Entry).value) == ghostLE32(tblData(t), ghostRecValAt(tblData(t), o)) &&
+//@           forall(0, len(result0.(*Entry).value), func(i int) bool { return result0.(*Entry).value[i] == tblData(t)[ghostRecValAt(tblData(t), o)+4+i] }) })
+//@   loop 0:
+//@     invariant same(io.Reader(cur).data, tblData(t))
+//@     invariant tblWF(t) ==> 0 <= io.Reader(cur).pos && io.Reader(cur).pos <= len(tblData(t)) && ghostRecStart(tblData(t), io.Reader(cur).pos) &&
+//@               (io.Reader(cur).pos < len(tblData(t)) ==> ghostRecNext(tblData(t), io.Reader(cur).pos) > io.Reader(cur).pos)
 
 // LevelList.Get: among the level-0 tables holding the key the NEWEST version
 // (highest sequence number) is returned; not-found only if no level-0 table holds it.
@@ -172,6 +236,7 @@ var ghostTableURI func(t *Table) string
 // target key (also one below the first indexed key) and every table size.
 //@ func SearchIndex.Search
 //@   property C17
+//@   ensures len(si.offsets) == 0 ==> result0 == 0 && result2 == nil
 //@   requires forall(0, len(si.offsets), func(i int) bool { return forall(0, i, func(j int) bool { return si.offsets[j] < si.offsets[i] }) })
 //@   modifies nothing
 //@   ensures result2 == nil && len(si.offsets) > 0 ==> exists(0, len(si.offsets), func(j int) bool { return result0 == int64(si.offsets[j]) })
